@@ -186,6 +186,23 @@ func Operations() []Operation {
 		{Name: "deleteWithFilter", Needs: "docs", Run: func(e *env) error {
 			return gql(e, `mutation { delete_T(filter: {v: {_ge: 0}}) { _docID } }`)
 		}},
+		// the same two through the collection API instead of a request
+		{Name: "colUpdateWithFilter", Needs: "docs", Run: func(e *env) error {
+			col, err := tcol(e)
+			if err != nil {
+				return err
+			}
+			_, err = col.UpdateWithFilter(e.ctx, `{v: {_ge: 0}}`, `{"v": 43}`)
+			return err
+		}},
+		{Name: "colDeleteWithFilter", Needs: "docs", Run: func(e *env) error {
+			col, err := tcol(e)
+			if err != nil {
+				return err
+			}
+			_, err = col.DeleteWithFilter(e.ctx, `{v: {_ge: 0}}`)
+			return err
+		}},
 		{Name: "upsertUpdate", Needs: "docs", Run: func(e *env) error {
 			return gql(e, `mutation { upsert_T(filter: {name: {_eq: "a"}}, create: {name: "a", v: 1}, update: {v: 31}) { _docID } }`)
 		}},
